@@ -34,6 +34,7 @@ def main():
     ap.add_argument("--baseline", action="store_true")
     ap.add_argument("--tier", default="quick")
     ap.add_argument("--keep", action="store_true")
+    ap.add_argument("--no-check", action="store_true", help="confirmation only (demo, build, optional baseline); keep earlier check results")
     a = ap.parse_args()
     seed = os.path.abspath(a.seed)
     meta = json.load(open(os.path.join(seed, "meta.json")))
@@ -82,6 +83,16 @@ def main():
             res["baseline_rc"] = rc
             res["baseline_tail"] = out[-400:]
         res["checks"] = {}
+        try:
+            prior = json.load(open(os.path.join(seed, "result.json")))
+        except Exception:
+            prior = {}
+        if not a.baseline and "baseline_rc" in prior:
+            res["baseline_rc"] = prior["baseline_rc"]
+            res["baseline_tail"] = prior.get("baseline_tail", "")
+        if a.no_check:
+            res["checks"] = prior.get("checks", {})
+            props = []
         for p in props:
             t = time.time()
             rc, out = sh("./check %s --tier %s" % (p, a.tier), cwd=V, env={"VERIF_REPO": wt})
@@ -89,7 +100,8 @@ def main():
             res["checks"][p] = {"rc": rc, "lines": [l[:300] for l in lines], "wall_s": round(time.time() - t, 1),
                                 "broken": [l[:400] for l in out.splitlines() if "BROKEN" in l][:6]}
         res["confirmed"] = (res.get("demo_clean_rc") == 0 and res.get("demo_patched_rc", 0) != 0 and res.get("build_rc") == 0
-                            and (not a.baseline or res.get("baseline_rc") == 0))
+                            and res.get("baseline_rc", 0) == 0)
+        res["baseline_confirmed"] = res.get("baseline_rc") == 0
         res["detected"] = any(c["rc"] == 1 and any(l.startswith("VIOLATION") for l in c["lines"]) for c in res["checks"].values())
         res["detected_with_replay"] = any(c["rc"] == 1 and any(l.startswith("VIOLATION") and "no-failing-input-found" not in l for l in c["lines"]) for c in res["checks"].values())
     finally:
